@@ -22,8 +22,8 @@ type accKey struct {
 
 type Summary struct {
 	Acc    map[accKey]string // -> site of a representative instruction
-	Ret    []Val // per result
-	Cb     map[Tag]TagSet // function-typed parameter / free variable that is invoked -> roots of the arguments it gets
+	Ret    []Val             // per result
+	Cb     map[Tag]TagSet    // function-typed parameter / free variable that is invoked -> roots of the arguments it gets
 	API    map[string]bool
 	Spawns bool
 }
